@@ -38,6 +38,28 @@ CLAIMED = {
         note=TRUST + "Backend kernels replaced by size/precondition contracts (floating-point content not modelled). Shapes bounded (blocks<=2/3, native rank<=3/4). Hard-fused operands (masks), svd/qr/eigh, fuse/unfuse covered in C03/C04 packs, not here.",
         technique='AST-to-SMT symbolic execution of the real metadata code against the wf contract; z3 with cvc5 fallback; native replay of counter-models',
     ),
+    'C04': dict(
+        category='proof',
+        text=("STRUCTURAL clauses of the property only: the real svd/qr/eigh (through _merge_to_matrix, _meta_svd/_meta_qr/_meta_eigh, "
+              "_meta_unmerge_matrix, _unmerge, moveaxis) are interpreted on tensors with symbolic charges/dimensions/tensor charge; proved for "
+              "all values at each enumerated shape: factors well-formed, tensor charge on the factor the caller selected, new connecting leg "
+              "with the requested signature at the requested position, the connecting leg is the same space in U, S, V (Q, R), remaining legs "
+              "keep their order, and the metadata handed to the LAPACK kernels is shape-valid, in bounds and covers the outputs."),
+        design_ref='DESIGN.md §5 C04',
+        note=TRUST + "Reconstruction to numerical precision, isometry, ordering and sign conventions are LAPACK's contract: ASSUMED, listed under not_decided in the evidence. eig and low-rank policies not covered.",
+        technique='AST-to-SMT symbolic execution of the real factorisation glue against structural contracts; LAPACK kernels as assumed contracts with checked preconditions',
+    ),
+    'C13': dict(
+        category='proof',
+        text=("The real truncation_mask is interpreted on spectra of symbolic non-negative reals spread over charge sectors, with symbolic tol, "
+              "tol_block, D_total and D_block (number or per-sector dict); numpy argsort returns ties in any order. Proved for all values at each "
+              "sector profile: every limit respected, kept values above both tolerances, no discarded value exceeds a kept value competing under "
+              "the same limit (ties the only freedom), non-binding limits discard nothing, global limit exhausted before a candidate is dropped, "
+              "argument unchanged. _meta_mask: a mask sector cuts exactly the blocks carrying that charge on the masked leg."),
+        design_ref='DESIGN.md §5 C13',
+        note=TRUST + "Spectrum length <= 3 (quick) / 4 (thorough) because every weak order is an explicit path. Eckart-Young clause derived on paper from this contract plus assumed isometry (C04). truncate_multiplets=True not covered.",
+        technique='AST-to-SMT symbolic execution over reals (z3 LRA) of the real selection code against the selection specification',
+    ),
     'C05': dict(
         category='proof',
         text=("Contracts on the real swap_gate/_meta_swap_gate/_meta_swap_gate_charge/_slices_to_negate (the negated element intervals are "
